@@ -150,8 +150,10 @@ Definition bapply (b0 : base) (te : Z * ev) : base :=
           let lr := mkLR i (p_kind p) (p_inner p) rk rev v (p_key p) t in
           let b1 := b <| b_rets ::= fun m => aset m (p_gid p) lr |> in
           (* a successful refresh gives the instance a new (token, revision) view *)
-          if (p_kind p =? kUpdate) && (p_inner p =? sHeartbeat) && (rk =? oOk) then
-            upd_inst b1 i (fun x => x <| io_views ::= fun l => (io_tok x, rev) :: (v_stok (vinfo_of b1 (p_val p)), rev) :: l |>)
+          (* the heartbeat loop keeps the new revision only while its own term is still running *)
+          if (p_kind p =? kUpdate) && (p_inner p =? sHeartbeat) && (rk =? oOk)
+             && io_flag (inst_of b1 i) && (v_stok (vinfo_of b1 (p_val p)) =? io_tok (inst_of b1 i)) then
+            upd_inst b1 i (fun x => x <| io_views ::= cons (io_tok x, rev) |>)
           else b1
       end
   | EFlag i fl cause root gid =>
